@@ -10,3 +10,4 @@ cargo build --profile vf --workspace 2>&1 | tail -5
 VERIF_ROOT="$(cd .. && pwd)" ./vf-conc/run.sh --build-only
 # coverage-guided fuzz target for C06 (libFuzzer + ASan, nightly toolchain)
 cargo +nightly fuzz build --fuzz-dir ../fuzz proof_bytes 2>&1 | tail -2
+cargo +nightly fuzz build --fuzz-dir ../fuzz read_adapter 2>&1 | tail -2
